@@ -284,15 +284,13 @@ Proof.
   vm_compute. repeat split.
 Qed.
 
+Lemma not_listed_all : forall c, implb (wfb c && ended c) (negb (h_member (settle c))) = true.
+Proof. by_all_conn. Qed.
+
 Lemma not_listed c : wfb c = true -> ended c = true -> h_member (settle c) = false.
 Proof.
-  intros Hw En. destruct (joined c) eqn:J.
-  - pose proof (settle_releases c Hw J En) as H. unfold holds_none in H.
-    destruct (h_member (settle c)); [|reflexivity]. exfalso.
-    repeat (apply andb_true_iff in H; destruct H as [H ?]); discriminate.
-  - rewrite settle_refused by assumption.
-    destruct (h_member c) eqn:Hm; [|reflexivity].
-    pose proof (refused_holds_at_most_socket c Member Hw J Hm). discriminate.
+  intros Hw En. pose proof (not_listed_all c) as Ha.
+  destruct (h_member (settle c)); [|reflexivity]. rewrite Hw, En in Ha. discriminate Ha.
 Qed.
 
 Lemma settle_all_lookup s id :
@@ -397,5 +395,5 @@ Proof.
     rewrite settle_untouched by assumption.
     pose proof (live_untouched_all c) as Ha. rewrite Hc, J, En in Ha. cbn [andb orb negb implb] in Ha.
     repeat (apply andb_true_iff in Ha; destruct Ha as [Ha ?]).
-    destruct Hk as [->|[->|->]]; cbn [holds]; assumption.
+    destruct Hk as [-> | [-> | ->]]; cbn [holds]; assumption.
 Qed.
